@@ -17,7 +17,9 @@ class Contract:
                  raises=None, raises_ensures=None, modifies=(), loops=None, inline=False,
                  trusted=False, prop=None, closure=None, note="", param_names=None,
                  allow_any_raise=False, replay=None, cases=None, ghost_params=None, frame=None,
-                 decreases=None, raise_modifies=(), assumes=(), ghost_after=None, inline_callees=(), tier="quick", call_inline=False, raises_fields=None):
+                 decreases=None, raise_modifies=(), assumes=(), ghost_after=None, inline_callees=(), tier="quick", call_inline=False, raises_fields=None, defaults=None):
+        # default values (expression text) of parameters of model methods, which have no real signature
+        self.defaults = {k: self._p(v) for k, v in (defaults or {}).items()}
         self.key = key
         self.params = dict(params or {})
         self.self_model = self_model
@@ -105,6 +107,13 @@ class Registry:
         self.lemmas = []  # (prop, name, callable(z3) -> (assumptions, goal))
         self.statics = []  # (prop, name, callable) static AST obligations
         self.stub_src = {}
+        self.native_specs = {}  # name -> python callable: native meaning of a builtin spec function (replay)
+
+    def builtin_spec(self, name, symbolic, native):
+        """spec function given as a pair: symbolic implementation (interp, args, kwargs, node) and native meaning"""
+        from .values import VBuiltin
+        self.spec_names[name] = VBuiltin("spec:" + name, symbolic)
+        self.native_specs[name] = native
 
     def stub(self, key, source):
         """trusted stub for a foreign (C-implemented) method, given as Python source that the
